@@ -516,6 +516,98 @@ Proof.
   - proj_norm. rewrite any_run_ev_cons. unfold r. rewrite fallback_stage_any_run_ev, (quiet_any_run_ev _ Q).
     reflexivity.
   - apply (fallback_stage_refusal st id c VCircuitOpen s s1); try reflexivity; fold (cs_pass id c); fold r;
-      proj_norm; rewrite ?returns_cons, ?fb_inv_cons, ?(quiet_returns _ _ Q), ?(quiet_fb_inv _ _ Q);
+      proj_norm; [rewrite returns_cons|rewrite fb_inv_cons]; rewrite ?(quiet_returns _ _ Q), ?(quiet_fb_inv _ _ Q);
       cbn [app returns fb_invocations flat_map]; rewrite app_nil_r; reflexivity.
+Qed.
+
+(* ====================================================================== *)
+(* EndRun                                                                  *)
+(* ====================================================================== *)
+(* classification, fan-out and transition of a run function that returned, as end_run inlines it *)
+Definition run_outcome (st : static) (r : res) (e : endinfo) (done : bool) (start : Z) (expected : option Z)
+                       (s : state) : state * list obs :=
+  let now := clock s in
+  let dur := now - start in
+  let timed_out := match expected with Some x => x <? now | None => false end in
+  let interrupted := negb (res_is_nil r) && done && negb (l_ignore_int (cfg s)) && ie_says (l_ie (cfg s)) in
+  if res_is_bad r then emit_run st KBadRequest now (Some dur) s
+  else if timed_out then
+    let (sa, oa) := emit_run st KTimeout now (Some dur) s in
+    if negb (is_open sa) then let (sb, ob) := attempt_to_open st now (e_should_open e) sa in (sb, oa ++ ob)
+    else (sa, oa)
+  else if interrupted then emit_run st KInterrupt now (Some dur) s
+  else if negb (res_is_nil r) then
+    let (sa, oa) := emit_run st KFailure now (Some dur) s in
+    if negb (is_open sa) then let (sb, ob) := attempt_to_open st now (e_should_open e) sa in (sb, oa ++ ob)
+    else (sa, oa)
+  else
+    let (sa, oa) := emit_run st KSuccess now (Some dur) s in
+    if is_open sa then let (sb, ob) := close_circuit st now false (e_should_close e) sa in (sb, oa ++ ob)
+    else (sa, oa).
+
+Lemma end_run_PRun st id e s cs start expected derived :
+  find_call id s = Some cs -> cs_phase cs = PRun start expected derived ->
+  end_run st id e s =
+  let after := if derived then true else cs_done cs in
+  let seen := ORunEnd id (cs_done cs) in
+  match e_res e with
+  | RPanic v => (drop_call id (set_cmds s (cmds s - 1)), [seen; OReturned id (VPanic v) after])
+  | _ =>
+    let r := run_outcome st (e_res e) e (cs_done cs) start expected s in
+    let s2 := set_cmds (fst r) (cmds (fst r) - 1) in
+    if res_is_nil (e_res e) then (drop_call id s2, seen :: snd r ++ [OReturned id VNil after])
+    else if res_is_bad (e_res e) then (drop_call id s2, seen :: snd r ++ [OReturned id (res_val (e_res e)) after])
+    else let f := fallback_stage st cs (res_val (e_res e)) true derived s2 in (fst f, seen :: snd r ++ snd f)
+  end.
+Proof.
+  intros Hf Hp. unfold end_run. rewrite Hf, Hp. cbv zeta.
+  destruct (e_res e) as [|k|k|k|v]; [| | | |reflexivity]; unfold run_outcome; cbv zeta;
+    match goal with |- (let '(s1, o1) := ?x in _) = _ => destruct x as [s1 o1] end;
+    cbn [fst snd res_is_nil res_is_bad]; try reflexivity;
+    destruct (fallback_stage st cs _ true derived _); reflexivity.
+Qed.
+
+Lemma run_outcome_spec st r e done start expected s :
+  exists oq,
+    snd (run_outcome st r e done start expected s) =
+    run_fan st (classify (res_is_bad r) (match expected with Some x => x <? clock s | None => false end)
+                         (negb (res_is_nil r)) done (l_ignore_int (cfg s)) (ie_says (l_ie (cfg s))))
+            (clock s) (Some (clock s - start)) ++ oq /\
+    Quiet oq /\
+    calls (fst (run_outcome st r e done start expected s)) = calls s.
+Proof.
+  unfold run_outcome, classify. cbv zeta.
+  set (now := clock s). set (dur := Some (now - start)).
+  assert (OPEN : forall k,
+    exists oq,
+      snd (let (sa, oa) := emit_run st k now dur s in
+           if negb (is_open sa)
+           then let (sb, ob) := attempt_to_open st now (e_should_open e) sa in (sb, oa ++ ob)
+           else (sa, oa)) = run_fan st k now dur ++ oq /\ Quiet oq /\
+      calls (fst (let (sa, oa) := emit_run st k now dur s in
+           if negb (is_open sa)
+           then let (sb, ob) := attempt_to_open st now (e_should_open e) sa in (sb, oa ++ ob)
+           else (sa, oa))) = calls s).
+  { intros k. unfold emit_run. fold (run_fan st k now dur).
+    set (sa := set_logic s (opener_run k now (opn s)) (closer_run k (cls s))).
+    destruct (negb (is_open sa)).
+    - pose proof (attempt_to_open_spec st now (e_should_open e) sa) as [Q C].
+      destruct (attempt_to_open st now (e_should_open e) sa) as [sb ob]. cbn [fst snd] in *.
+      exists ob. repeat split; assumption.
+    - exists []. cbn [fst snd]. rewrite app_nil_r. repeat split. constructor. }
+  assert (PLAIN : forall k,
+    exists oq, snd (emit_run st k now dur s) = run_fan st k now dur ++ oq /\ Quiet oq /\
+               calls (fst (emit_run st k now dur s)) = calls s).
+  { intros k. exists []. rewrite app_nil_r. repeat split. constructor. }
+  destruct (res_is_bad r); [apply PLAIN|].
+  destruct (match expected with Some x => x <? now | None => false end); [apply OPEN|].
+  destruct (negb (res_is_nil r) && done && negb (l_ignore_int (cfg s)) && ie_says (l_ie (cfg s))); [apply PLAIN|].
+  destruct (negb (res_is_nil r)); [apply OPEN|].
+  unfold emit_run. fold (run_fan st KSuccess now dur).
+  set (sa := set_logic s (opener_run KSuccess now (opn s)) (closer_run KSuccess (cls s))).
+  destruct (is_open sa).
+  - pose proof (close_circuit_spec st now false (e_should_close e) sa) as [Q C].
+    destruct (close_circuit st now false (e_should_close e) sa) as [sb ob]. cbn [fst snd] in *.
+    exists ob. repeat split; assumption.
+  - exists []. cbn [fst snd]. rewrite app_nil_r. repeat split. constructor.
 Qed.
